@@ -19,7 +19,7 @@ type Item struct {
 	Err      bool    `json:"err,omitempty"`
 	// RawResults, when set, overrides the result list of the function with
 	// arbitrary result types (used by the signature-rule property).
-	RawResults []*Type `json:"raw,omitempty"`
+	RawResults []*Type `json:"raw"`
 	// Out: func result type; struct: the named struct type; value: the value's
 	// type; ivalue/bind: the interface type.
 	Out *Type `json:"out,omitempty"`
@@ -96,7 +96,7 @@ type Injector struct {
 	Panic    bool    `json:"panic,omitempty"` // panic(wire.Build(...)) form
 	Args     []Ref   `json:"args"`
 	// RawResults overrides the result list (signature-rule property).
-	RawResults []*Type `json:"raw,omitempty"`
+	RawResults []*Type `json:"raw"`
 	Doc        string  `json:"doc,omitempty"`
 	// ResNames names the results of the template (all of them, "_" allowed);
 	// ignored unless its length equals the number of results.
